@@ -12,7 +12,8 @@
 //	                                          one line per spec: "ok <id> runs=.. ..." | "anomaly <id> run=<r> <what>"
 //	race <ff|cancel> <runs>                   what cmds/build.go does with the map Walk returns when the walk ended through
 //	                                          ctx.Done (fail-fast or interrupt): read it at once, without the walker's mutex,
-//	                                          while tasks are still finishing.  Meant for a -race build.
+//	                                          while tasks are still finishing; prints how often that map grew after the
+//	                                          return (must be 0: Walk hands out a snapshot).  Also meant for a -race build.
 //
 // The gated mode lives in inject/zz_gated_test.go (testing/synctest is only available to tests).
 package main
@@ -256,9 +257,10 @@ func poolRuns(sp spec) string {
 		anyFail := len(sp.Fail) > 0
 		early := wasCancelled || (sp.FF && anyFail)
 		if early {
-			// Walk may have returned through ctx.Done while routines are still running and writing the
-			// completions map: reading it here would be the racing read of cmds/build.go (sub-command
-			// race; the caller has no way to know when the writes stop).  Use the harness' own record.
+			// Walk may have returned through ctx.Done while routines are still running: the map it returned is
+			// a snapshot of the completions recorded until then (reading it while the routines go on is the
+			// business of sub-command race, which does what cmds/build.go does).  Which completions made it
+			// into the snapshot depends on timing, so the accounting below uses the harness' own record.
 			if wasCancelled {
 				cancelledRuns++
 			}
